@@ -39,11 +39,13 @@ import (
 	"fmt"
 	"math/rand"
 	"os"
+	"reflect"
 	"runtime"
 	"sort"
 	"strconv"
 	"strings"
 	"sync"
+	"sync/atomic"
 	"time"
 )
 
@@ -65,46 +67,47 @@ func pstrClassify(op, callee, fn string) int {
 		return 24
 	}
 	suf := func(s string) bool { return strings.HasSuffix(callee, s) }
+	nm := pstrFieldNames()
 	switch {
-	case suf(".subscribers.Load"):
+	case suf("." + nm["subscribers"] + ".Load"):
 		return 1
-	case suf(".subscribers.Add"), suf(".subscribers.CompareAndSwap"), suf(".subscribers.Store"), suf(".subscribers.Swap"):
+	case suf("." + nm["subscribers"] + ".Add"), suf("." + nm["subscribers"] + ".CompareAndSwap"), suf("." + nm["subscribers"] + ".Store"), suf("." + nm["subscribers"] + ".Swap"):
 		return 2
-	case suf(".sendMu.Lock"):
+	case suf("." + nm["sendMu"] + ".Lock"):
 		return 3
-	case suf(".sendMu.Unlock"):
+	case suf("." + nm["sendMu"] + ".Unlock"):
 		return 4
-	case suf(".sendingMu.Lock"):
+	case suf("." + nm["sendingMu"] + ".Lock"):
 		return 5
-	case suf(".sendingMu.Unlock"):
+	case suf("." + nm["sendingMu"] + ".Unlock"):
 		return 6
-	case suf(".sendingMu.RLock"):
+	case suf("." + nm["sendingMu"] + ".RLock"):
 		return 7
-	case suf(".sendingMu.TryRLock"):
+	case suf("." + nm["sendingMu"] + ".TryRLock"):
 		return 8
-	case suf(".sendingMu.RUnlock"):
+	case suf("." + nm["sendingMu"] + ".RUnlock"):
 		return 9
-	case suf(".pongC.L.Lock"):
+	case suf("." + nm["pongC"] + ".L.Lock"):
 		return 10
-	case suf(".pongC.L.Unlock"):
+	case suf("." + nm["pongC"] + ".L.Unlock"):
 		return 11
-	case suf(".pongC.Wait"):
+	case suf("." + nm["pongC"] + ".Wait"):
 		return 12
-	case suf(".pongC.Broadcast"):
+	case suf("." + nm["pongC"] + ".Broadcast"):
 		return 13
-	case suf(".pongC.Signal"):
+	case suf("." + nm["pongC"] + ".Signal"):
 		return 14
-	case suf(".state.Load"):
+	case suf("." + nm["state"] + ".Load"):
 		return 15
-	case suf(".state.CompareAndSwap"):
+	case suf("." + nm["state"] + ".CompareAndSwap"):
 		return 16
-	case suf(".state.Add"):
+	case suf("." + nm["state"] + ".Add"):
 		return 17
-	case suf(".state.Store"), suf(".state.Swap"):
+	case suf("." + nm["state"] + ".Store"), suf("." + nm["state"] + ".Swap"):
 		return 18
-	case suf(".mutex.Lock"), suf(".mutex.Unlock"), suf(".mutex.RLock"), suf(".mutex.RUnlock"):
+	case suf("." + nm["mutex"] + ".Lock"), suf("." + nm["mutex"] + ".Unlock"), suf("." + nm["mutex"] + ".RLock"), suf("." + nm["mutex"] + ".RUnlock"):
 		return 21
-	case suf(".ping.Add"):
+	case suf("." + nm["ping"] + ".Add"):
 		return 22
 	}
 	switch op {
@@ -132,6 +135,52 @@ func pstrClassify(op, callee, fn string) int {
 		}
 	}
 	return 0
+}
+
+// pstrFieldNames: the names the fields of ChanPubSub and ChanCaster have in the source under test, found by their TYPES (each role
+// has a type of its own: the sender mutex is the sync.Mutex, the sending lock the sync.RWMutex, the pong condition the *sync.Cond,
+// the subscriber count the atomic.Int32, the caster the embedded ChanCaster; in ChanCaster the state word is the atomic.Uint64 and
+// its lock the sync.RWMutex), so that a renamed unexported field is still recognised; a role whose type is not unique keeps the name
+// the unchanged source uses.
+var pstrNamesOnce sync.Once
+var pstrNames map[string]string
+
+func pstrFieldNames() map[string]string {
+	pstrNamesOnce.Do(func() {
+		pstrNames = map[string]string{"subscribers": "subscribers", "sendMu": "sendMu", "sendingMu": "sendingMu", "pongC": "pongC",
+			"state": "state", "mutex": "mutex", "ping": "ping"}
+		uniq := func(t reflect.Type, want func(reflect.Type) bool) string {
+			name, n := "", 0
+			for i := 0; i < t.NumField(); i++ {
+				if want(t.Field(i).Type) {
+					name, n = t.Field(i).Name, n+1
+				}
+			}
+			if n == 1 {
+				return name
+			}
+			return ""
+		}
+		is := func(x interface{}) func(reflect.Type) bool {
+			tx := reflect.TypeOf(x)
+			return func(t reflect.Type) bool { return t == tx }
+		}
+		ps := reflect.TypeOf(ChanPubSub[chan int, int]{})
+		cs := reflect.TypeOf(ChanCaster[chan int, int]{})
+		set := func(role, name string) {
+			if name != "" {
+				pstrNames[role] = name
+			}
+		}
+		set("sendMu", uniq(ps, is(sync.Mutex{})))
+		set("sendingMu", uniq(ps, is(sync.RWMutex{})))
+		set("pongC", uniq(ps, is((*sync.Cond)(nil))))
+		set("subscribers", uniq(ps, is(atomic.Int32{})))
+		set("ping", uniq(ps, func(t reflect.Type) bool { return t == cs }))
+		set("state", uniq(cs, is(atomic.Uint64{})))
+		set("mutex", uniq(cs, is(sync.RWMutex{})))
+	})
+	return pstrNames
 }
 
 type pstrWait struct {
